@@ -48,7 +48,22 @@ type c31Ev struct {
 func (e c31Ev) String() string {
 	switch e.Op {
 	case c31Insert:
-		return fmt.Sprintf("Ins(k%d,ts%+d,ttl%d)", e.K, e.TsOff, e.TTL)
+		ts, ttl := fmt.Sprintf("%+d", e.TsOff), fmt.Sprint(e.TTL)
+		switch e.TsOff {
+		case c31TsMin:
+			ts = "=1"
+		case c31TsMax:
+			ts = "=2^32-31"
+		}
+		switch e.TTL {
+		case c31TTLReachM1:
+			ttl = "->2^32-1"
+		case c31TTLReach:
+			ttl = "->2^32"
+		case c31TTLMax:
+			ttl = "=2^32-1"
+		}
+		return fmt.Sprintf("Ins(k%d,ts%s,ttl%s)", e.K, ts, ttl)
 	case c31Get:
 		return fmt.Sprintf("Get(k%d)", e.K)
 	case c31Clean:
@@ -58,11 +73,48 @@ func (e c31Ev) String() string {
 	}
 }
 
+// Codes for the extreme ends of the 32-bit ranges (RawTimestamp and RawTTL are uint32 seconds).
+const (
+	c31TsMin      = int8(-128) // timestamp 1 (1970-01-01 00:00:01)
+	c31TsMax      = int8(127)  // timestamp 2^32-31 (2106-02-07, half a minute before the end of the 32-bit range)
+	c31TTLReachM1 = uint8(250) // lifetime such that timestamp+lifetime = 2^32-1 s
+	c31TTLReach   = uint8(251) // lifetime such that timestamp+lifetime = 2^32 s (the sum no longer fits 32 bits)
+	c31TTLMax     = uint8(252) // lifetime 2^32-1 s
+)
+
+// c31Raw gives the raw 32-bit fields of the revocation an Insert event stands for.
+func c31Raw(e c31Ev, nowMs int64) c31Stored {
+	var ts uint32
+	switch e.TsOff {
+	case c31TsMin:
+		ts = 1
+	case c31TsMax:
+		ts = 1<<32 - 31
+	default:
+		ts = uint32(nowMs/1000 + int64(e.TsOff)) // wraps once the clock has passed 2^32 s: then it IS a 1970 timestamp
+	}
+	ttl := uint32(e.TTL)
+	switch e.TTL {
+	case c31TTLReachM1:
+		ttl = uint32(1<<32 - 1 - uint64(ts))
+	case c31TTLReach:
+		ttl = uint32(1<<32 - uint64(ts))
+	case c31TTLMax:
+		ttl = 1<<32 - 1
+	}
+	return c31Stored{tsSec: ts, ttlSec: ttl}
+}
+
 type c31Cfg struct {
 	keys   []revcache.Key
 	tsOffs []int
 	ttls   []int
 	advs   []int
+	// startSec > 0: the virtual clock is first moved to startSec+0.5 s (Unix time)
+	startSec int64
+	// absClock: the canonical state contains the absolute clock (needed as soon as absolute timestamps or the
+	// 2^32 s boundary are in play; such a space does not close and is explored to its depth bound)
+	absClock bool
 }
 
 func (c c31Cfg) menu() []c31Ev {
@@ -177,6 +229,9 @@ func c31ReplayInBubble(cfg c31Cfg, hist []c31Ev) (res c31Result) {
 	// Half-second phase: every timestamp and expiry is a whole second, every "now" is x.5 s, so that no event
 	// happens exactly at an expiry instant (the statement does not say whether that instant is expired).
 	time.Sleep(500 * time.Millisecond)
+	if cfg.startSec > 0 {
+		time.Sleep(time.Unix(cfg.startSec, 500_000_000).Sub(time.Now()))
+	}
 	nk := len(cfg.keys)
 	// caches[0] is the instance under observation; caches[1+i] receive the same history and are used up by
 	// the destructive probe "does key i still hold an expired entry" at the end.
@@ -278,7 +333,7 @@ func c31ReplayInBubble(cfg c31Cfg, hist []c31Ev) (res c31Result) {
 		cls := ""
 		switch e.Op {
 		case c31Insert:
-			s := c31Stored{tsSec: uint32(nowMs/1000 + int64(e.TsOff)), ttlSec: uint32(e.TTL)}
+			s := c31Raw(e, nowMs)
 			if s.expMs() == nowMs {
 				panic("harness: event at an exact expiry instant")
 			}
@@ -357,7 +412,12 @@ func c31ReplayInBubble(cfg c31Cfg, hist []c31Ev) (res c31Result) {
 		c := caches[1+k]
 		for j, key := range cfg.keys {
 			if j != k {
-				if _, err := c.Insert(ctx, c31Rev(key, c31Stored{tsSec: uint32(nowMs / 1000), ttlSec: 1000})); err != nil {
+				fresh := c31Stored{tsSec: uint32(nowMs / 1000), ttlSec: 1000}
+				if nowMs/1000+1000 >= 1<<32 {
+					// no unexpired revocation fits below 2^32 s any more: newest possible timestamp, longest lifetime
+					fresh = c31Stored{tsSec: 1<<32 - 1, ttlSec: 1<<32 - 1}
+				}
+				if _, err := c.Insert(ctx, c31Rev(key, fresh)); err != nil {
 					return fail("insert-error", len(hist), "%v", err)
 				}
 			}
@@ -387,6 +447,9 @@ func c31ReplayInBubble(cfg c31Cfg, hist []c31Ev) (res c31Result) {
 		return *r
 	}
 	res.canon = obs + " | expired-present=" + strings.Join(bits, "") + fmt.Sprintf(" total=%d", total)
+	if cfg.absClock {
+		res.canon += fmt.Sprintf(" | clock=2^32%+dms", nowMs-(1<<32)*1000)
+	}
 	return res
 }
 
@@ -420,7 +483,18 @@ func TestC31(t *testing.T) {
 	arb := c31Cfg{tsOffs: []int{-20, -4, 0, 2}, ttls: []int{1, 5, 9, 10, 30}, advs: []int{5, 15}}
 	arb1, arb2, arb3 := arb, arb, arb
 	arb1.keys, arb2.keys, arb3.keys = []revcache.Key{k0}, []revcache.Key{k0, k2}, []revcache.Key{k0, k1, k2}
+	// the ends of the 32-bit ranges: timestamps 1 and 2^32-31, lifetimes that make timestamp+lifetime 2^32-1, 2^32 and
+	// more, with the clock in 2000 and with the clock 40.5 s before 2^32 s (2106) and running across it. The oracle
+	// computes in 64 bits: such revocations are unexpired and must be accepted and returned.
+	ext := c31Cfg{keys: []revcache.Key{k0}, tsOffs: []int{-20, 0, int(c31TsMin), int(c31TsMax)},
+		ttls: []int{30, int(c31TTLReachM1), int(c31TTLReach), int(c31TTLMax)}, advs: []int{15}, absClock: true}
+	late := c31Cfg{keys: []revcache.Key{k0}, tsOffs: []int{-20, 0}, ttls: []int{10, 30, int(c31TTLReach), int(c31TTLMax)},
+		advs: []int{15}, absClock: true, startSec: 1<<32 - 41}
+	ext2, late2 := ext, late
+	ext2.keys, late2.keys = []revcache.Key{k0, k2}, []revcache.Key{k0, k2}
 	phases := []c31Phase{{"3keys-5s-grid", small, 12, true},
+		{"1key-range-ends-clock-2000", ext, mc.Pick(4, 5), true},
+		{"1key-clock-crossing-2^32s", late, mc.Pick(5, 7), true},
 		{"1key-arbitrary-lifetimes", arb1, 20, true},
 		{"2keys-arbitrary-lifetimes-nomerge", arb2, 20, false}}
 	if mc.Thorough() {
@@ -434,7 +508,9 @@ func TestC31(t *testing.T) {
 			c31Phase{"2keys-1s-grid", fine, 20, true},
 			c31Phase{"3keys-rich-5s-grid-nomerge", rich3, 16, false},
 			c31Phase{"4keys-5s-grid-nomerge", small4, 14, false},
-			c31Phase{"3keys-arbitrary-lifetimes-nomerge", arb3, 24, false})
+			c31Phase{"3keys-arbitrary-lifetimes-nomerge", arb3, 24, false},
+			c31Phase{"2keys-range-ends-clock-2000-nomerge", ext2, 4, false},
+			c31Phase{"2keys-clock-crossing-2^32s-nomerge", late2, 5, false})
 	}
 	r.Rule = "per phase: breadth-first search over all histories (up to the phase's depth bound, in practice until no new " +
 		"state appears) from the menu Insert(key, timestamp = floor(now)+off s, lifetime s) for every key x offset x " +
